@@ -15,7 +15,7 @@ LEVELS = {
 def main(argv=None):
     ap = argparse.ArgumentParser()
     ap.add_argument('prop')
-    ap.add_argument('path', nargs='?')
+    ap.add_argument('path', nargs='*')
     ap.add_argument('--tier', default=None)
     ap.add_argument('--seed', default=None)
     ap.add_argument('--keep', action='store_true')
@@ -35,10 +35,10 @@ def main(argv=None):
     try:
         if a.prop == 'selftest':
             from . import selftest
-            rc = selftest.main()
+            rc = selftest.main(a.path)
         elif a.prop == 'replay':
             from . import replay
-            rc = replay.main(a.path)
+            rc = replay.main(a.path[0] if a.path else None)
         else:
             pid = a.prop.upper()
             mod = importlib.import_module('vf.props.' + pid.lower())
